@@ -717,7 +717,7 @@ func (c *Ctx) ctxDerivation(rule string) {
 			}
 		}
 		n := 0
-		allInstrs(d, func(in ssa.Instruction) {
+		p.coneInstrs(d, func(in ssa.Instruction) {
 			ci, ok := in.(*ssa.Call)
 			if !ok || calleeName(ci) != "reflect.ValueOf" {
 				return
@@ -727,7 +727,7 @@ func (c *Ctx) ctxDerivation(rule string) {
 				return
 			}
 			n++
-			c.check(ctxP != nil && c.ctxDerives(arg, func(v ssa.Value) bool { return v == ssa.Value(ctxP) }, 0, map[ssa.Value]bool{}), rule,
+			c.check(ctxP != nil && c.ctxDerives(arg, func(v ssa.Value) bool { return v == ssa.Value(ctxP) || c.isParamOrForwarded(v, ctxP) }, 0, map[ssa.Value]bool{}), rule,
 				fmt.Sprintf("%s: context argument of the handler", fname(d)), c.ipos(ci), "derives from the dispatcher's context parameter",
 				"the context placed in the handler's arguments does not derive from the context the dispatcher was given: cancellation (caller's cancel, HTTP abort, connection end) never reaches the handler")
 		})
